@@ -53,6 +53,21 @@ _t('compact_T_min', lambda d: _c(d) + 'T%02d%02d' % (d.hour, d.minute), 'm', fam
 _t('compact_nosep_s', lambda d: _c(d) + '%02d%02d%02d' % (d.hour, d.minute, d.second), 's', fam='compact')
 _t('compact_nosep_min', lambda d: _c(d) + '%02d%02d' % (d.hour, d.minute), 'm', fam='compact')
 _t('compact_date', _c, 'd', fam='compact', time=False)
+# the cross product {compact, colon} time x {'.', ','} x 1..6 fraction digits (seed C02F: a comma is a decimal mark after ANY run of
+# >= 2 digits, not only after a two-digit seconds field)
+_hms6 = lambda d: '%02d%02d%02d' % (d.hour, d.minute, d.second)
+_SEPN = {'.': 'dot', ',': 'comma'}
+for _sep in '.,':
+    for _k in (1, 2, 3, 4, 5, 6):
+        _p = 'us' if _k == 6 else ('f', _k)
+        if not (_sep == '.' and _k == 6):       # = compact_T_us
+            _t('compact_T_%s_f%d' % (_SEPN[_sep], _k), (lambda sep, k: lambda d: _c(d) + 'T' + _hms6(d) + sep + _frac(d, k))(_sep, _k), _p, fam='compact')
+        _t('iso_T_ctime_%s_f%d' % (_SEPN[_sep], _k), (lambda sep, k: lambda d: _d(d) + 'T' + _hms6(d) + sep + _frac(d, k))(_sep, _k), _p, fam='compact')
+        if _k in (1, 3, 6):
+            _t('iso_sp_ctime_%s_f%d' % (_SEPN[_sep], _k), (lambda sep, k: lambda d: _d(d) + ' ' + _hms6(d) + sep + _frac(d, k))(_sep, _k), _p, fam='compact')
+for _k in (1, 2, 4, 5):
+    _t('iso_T_comma_f%d' % _k, (lambda k: lambda d: _d(d) + 'T' + _hms(d) + ',' + _frac(d, k))(_k), ('f', _k))
+    _t('iso_sp_dot_f%d' % _k, (lambda k: lambda d: _d(d) + ' ' + _hms(d) + '.' + _frac(d, k))(_k), ('f', _k))
 _t('ctime', lambda d: '%s %s %2d %s %04d' % (WD[d.weekday()], MON[d.month - 1], d.day, _hms(d), d.year), 's',
    sp=True, fam='monthname', ydec=True)
 _t('rfc2822', lambda d: '%s, %02d %s %04d %s' % (WD[d.weekday()], d.day, MON[d.month - 1], d.year, _hms(d)), 's',
@@ -66,6 +81,13 @@ _t('Mon_d_Y_hms', lambda d: '%s %d %04d %s' % (MON[d.month - 1], d.day, d.year, 
 _t('dd-Mon-Y_hm', lambda d: '%02d-%s-%04d %02d:%02d' % (d.day, MON[d.month - 1], d.year, d.hour, d.minute), 'm',
    fam='monthname')
 _t('hms_letters', lambda d: _d(d) + ' %02dh%02dm%02ds' % (d.hour, d.minute, d.second), 's', sp=True, fam='hms')
+# NNhNNmNN.fs with a fraction: 1, 2, 4, 6 digits round-trip; 3 and 5 do NOT (the token 'SS.fff' has 6 characters, 'SS.fffff' has 8:
+# _parse_numeric_token takes it for HHMMSS / YYYYMMDD) — known finding D-C02-hms-fraction-token-length
+for _sep in '.,':
+    for _k in (1, 2, 3, 4, 5, 6):
+        _t('hms_letters_%s_f%d' % (_SEPN[_sep], _k),
+           (lambda sep, k: lambda d: _d(d) + ' %02dh%02dm%02d%s%ss' % (d.hour, d.minute, d.second, sep, _frac(d, k)))(_sep, _k),
+           'us' if _k == 6 else ('f', _k), sp=True, fam='hms')
 _t('hm_letters', lambda d: _d(d) + ' %02dh%02dm' % (d.hour, d.minute), 'm', sp=True, fam='hms')
 _t('us_slash', lambda d: '%02d/%02d/%04d %s' % (d.month, d.day, d.year, _hms(d)), 's', fam='numeric')
 _t('us_dash_date', lambda d: '%02d-%02d-%04d' % (d.month, d.day, d.year), 'd', fam='numeric', time=False)
